@@ -891,3 +891,38 @@ func verif_C11_route() {
 		verifAssert(code/100 == 5 && n == 0, "C11.route-invalid-refused")
 	}
 }
+
+// verif_C11_size_boundary: MAIL ... SIZE=<n> for n at the integer boundaries
+// (2^31-1 .. 2^64, with and without leading zeros), with and without a size
+// limit: the command is refused (5xx, backend not called) or the backend sees
+// exactly n; with a limit, n above it is refused.
+func verif_C11_size_boundary() {
+	vals := []string{"0", "7", "007", "2147483647", "2147483648", "4294967295", "4294967296", "9223372036854775807",
+		"9223372036854775808", "18446744073709551615", "18446744073709551616", "99999999999999999999"}
+	want := []int64{0, 7, 7, 2147483647, 2147483648, 4294967295, 4294967296, 9223372036854775807, -1, -1, -1, -1} // -1: not representable
+	i := verifChoice(len(vals))
+	limit := []int64{0, 1000, 1 << 40}[verifChoice(3)]
+	be := &vbackend{}
+	s, _ := verifServer(be)
+	s.MaxMessageBytes = limit
+	in := "EHLO c\r\nMAIL FROM:<a@v> SIZE=" + vals[i] + "\r\nNOOP\r\n"
+	vc, _, _ := verifServe(s, []byte(in), io.EOF)
+	reps, wf := verifParseReplies(vc.out)
+	verifObserve("c11size", i, limit, wf, len(reps), be.count("Mail"))
+	verifAssert(wf && len(reps) == 4 && reps[3].code == 250, "C11.size-one-reply")
+	if !wf || len(reps) != 4 {
+		return
+	}
+	if reps[2].code/100 == 2 {
+		verifReach("C11.size-accepted")
+		verifAssert(be.count("Mail") == 1 && be.lastSession != nil && len(be.lastSession.mailOpts) == 1, "C11.size-accepted-means-called")
+		if be.lastSession != nil && len(be.lastSession.mailOpts) == 1 {
+			o := be.lastSession.mailOpts[0]
+			verifAssert(o != nil && want[i] >= 0 && o.Size == want[i], "C11.size-reaches-backend-exactly")
+		}
+		verifAssert(limit == 0 || want[i] <= limit, "C11.size-over-limit-refused")
+	} else {
+		verifReach("C11.size-refused")
+		verifAssert(reps[2].code/100 == 5 && be.count("Mail") == 0, "C11.size-refused-backend-not-called")
+	}
+}
